@@ -101,6 +101,8 @@ Qed.
 
 Lemma digit_not_ws c : is_digit c = true -> is_ws c = false.
 Proof. destruct c as [[] [] [] [] [] [] [] []]; vm_compute; congruence. Qed.
+Lemma digit_okc c : is_digit c = true -> (negb (is_ws c) && Nat.ltb (nat_of_ascii c) 128) = true.
+Proof. destruct c as [[] [] [] [] [] [] [] []]; vm_compute; congruence. Qed.
 Lemma uscore_not_digit : is_digit uscore = false.
 Proof. reflexivity. Qed.
 
@@ -175,7 +177,12 @@ Proof.
 Qed.
 
 (* ================================================================== whitespace / tokens *)
-Definition no_ws (s : str) : bool := forallb (fun c => negb (is_ws c)) s.
+(* a character the model is faithful for: 7-bit ASCII (Python's str.split() also separates at
+   non-ASCII blanks such as U+00A0 / U+0085, which the byte-level model does not see) and no blank *)
+Definition okc (c : ascii) : bool := negb (is_ws c) && Nat.ltb (nat_of_ascii c) 128.
+Lemma okc_not_ws c : okc c = true -> is_ws c = false.
+Proof. unfold okc. intros H. apply andb_true_iff in H. destruct H as [H _]. apply negb_true_iff. exact H. Qed.
+Definition no_ws (s : str) : bool := forallb okc s.
 Definition clean (s : str) : Prop := no_ws s = true /\ s <> [].
 
 Lemma tok_no_ws s : no_ws s = true -> forall cur,
@@ -184,7 +191,7 @@ Proof.
   induction s as [|c s IH]; intros H cur; simpl.
   - rewrite app_nil_r. destruct cur as [|a cur]; [reflexivity|].
     simpl. destruct (List.rev cur ++ [a]) eqn:E; [destruct (List.rev cur); discriminate|reflexivity].
-  - simpl in H. apply andb_true_iff in H. destruct H as [Hc Hs]. apply negb_true_iff in Hc. rewrite Hc.
+  - simpl in H. apply andb_true_iff in H. destruct H as [Hc Hs]. apply okc_not_ws in Hc. rewrite Hc.
     rewrite (IH Hs (c :: cur)). simpl. rewrite <- app_assoc. reflexivity.
 Qed.
 Lemma tokens_clean s : clean s -> tokens s = [s].
@@ -196,7 +203,7 @@ Proof. unfold no_ws. apply forallb_app. Qed.
 Lemma digits_no_ws d : digits d -> no_ws d = true.
 Proof.
   intros H. unfold no_ws. apply forallb_forall. intros c Hc.
-  unfold digits in H. rewrite Forall_forall in H. rewrite (digit_not_ws c (H c Hc)). reflexivity.
+  unfold digits in H. rewrite Forall_forall in H. exact (digit_okc c (H c Hc)).
 Qed.
 Lemma candi_clean b t : clean b -> clean (candi b t).
 Proof.
@@ -690,16 +697,20 @@ Definition ex_R (st : state) (o : op) : registry := fst (reg_step_from (st_reg s
 Definition ex_outF (st : state) (o : op) : str := ex_N st o ++ out_ext (rq_method (o_req o)).
 Definition ex_inputs (st : state) (o : op) : list str := (ex_N st o ++ in_ext (rq_method (o_req o))) :: o_aux o.
 Definition ex_fs1 (st : state) (o : op) : fsys := stage_inputs (ex_N st o) (ex_inputs st o) (st_fs st).
+Definition ex_declared (st : state) (o : op) : list str := ex_inputs st o ++ o_stale o.
+Definition ex_inp_ok (st : state) (o : op) : bool := forallb (fs_exists (ex_fs1 st o)) (ex_declared st o).
 Definition ex_skip (st : state) (o : op) : bool :=
   reuse_rule (fs_exists (ex_fs1 st o) (ex_outF st o)) (fs_normal (ex_fs1 st o) (ex_outF st o)).
 Definition ex_fs2 (st : state) (o : op) : fsys :=
-  stage_program (ex_skip st o) (o_out o) (ex_N st o) (ex_outF st o) (o_req o) (ex_fs1 st o).
+  if ex_inp_ok st o then stage_program (ex_skip st o) (o_out o) (ex_N st o) (ex_outF st o) (o_req o) (ex_fs1 st o)
+  else ex_fs1 st o.
+Definition ex_res (st : state) (o : op) : option request * bool * bool :=
+  if ex_inp_ok st o then stage_result (ex_fs2 st o) (ex_outF st o) else (None, true, false).
 Lemma exec_op_unfold st o :
   exec_op st o =
   (mkState (ex_R st o)
-           (stage_cleanup (o_cm o) (snd (stage_result (ex_fs2 st o) (ex_outF st o))) (ex_N st o) (ex_inputs st o) (ex_outF st o) (ex_fs2 st o)),
-   mkObs (ex_N st o) (negb (ex_skip st o)) (fst (fst (stage_result (ex_fs2 st o) (ex_outF st o))))
-         (snd (fst (stage_result (ex_fs2 st o) (ex_outF st o))))).
+           (stage_cleanup (o_cm o) (snd (ex_res st o)) (ex_N st o) (ex_declared st o) (ex_outF st o) (ex_fs2 st o)),
+   mkObs (ex_N st o) (ex_inp_ok st o && negb (ex_skip st o)) (fst (fst (ex_res st o))) (snd (fst (ex_res st o)))).
 Proof. reflexivity. Qed.
 
 Lemma ex_step_wf st o : Inv st -> clean_op o ->
@@ -711,11 +722,13 @@ Qed.
 Lemma ex_fs2_ok st o : Inv st -> clean_op o -> Forall (out_ok (ex_R st o)) (ex_fs2 st o).
 Proof.
   intros HI C. destruct (ex_step_wf st o HI C) as [W1 [I1 B1]]. destruct HI as [_ F].
-  unfold ex_fs2. apply Forall_stage_program.
+  assert (F1 : Forall (out_ok (ex_R st o)) (ex_fs1 st o)).
+  { unfold ex_fs1. apply Forall_stage_inputs; [intros nm; exact I|].
+    apply Forall_forall. intros f Hf. rewrite Forall_forall in F. exact (out_ok_incl _ _ _ I1 (F _ Hf)). }
+  unfold ex_fs2. destruct (ex_inp_ok st o); [|exact F1]. apply Forall_stage_program.
   - exact I.
   - intros b. unfold out_ok. simpl. split; [reflexivity|exact B1].
-  - unfold ex_fs1. apply Forall_stage_inputs; [intros nm; exact I|].
-    apply Forall_forall. intros f Hf. rewrite Forall_forall in F. exact (out_ok_incl _ _ _ I1 (F _ Hf)).
+  - exact F1.
 Qed.
 Lemma exec_op_inv st o : Inv st -> clean_op o -> Inv (fst (exec_op st o)).
 Proof.
@@ -742,7 +755,7 @@ Qed.
 (* ---- optimisations through CalculationExecutorO *)
 Lemma exec_opt_inv st r : Inv st -> clean_req r -> Inv (fst (exec_opt st r)).
 Proof.
-  intros [W F] C. unfold exec_opt.
+  intros [W F] C. unfold exec_opt, exec_opt_late.
   destruct (reg_step (st_reg st) r) as [R1 N] eqn:E.
   destruct (reg_step_wf _ _ _ _ W C E) as [W1 [I1 [B1 _]]]. cbn [fst snd].
   assert (F1 : Forall (out_ok R1) (st_fs st)).
@@ -755,7 +768,7 @@ Lemma opt_parsed_same_identity st r r' : Inv st -> clean_req r ->
   ob_energy (snd (exec_opt st r)) = Some r' ->
   idf r' (ob_name (snd (exec_opt st r))) = idf r (ob_name (snd (exec_opt st r))).
 Proof.
-  intros [W F] C. unfold exec_opt.
+  intros [W F] C. unfold exec_opt, exec_opt_late.
   destruct (reg_step (st_reg st) r) as [R1 N] eqn:E.
   destruct (reg_step_wf _ _ _ _ W C E) as [W1 [I1 [B1 _]]]. cbn [fst snd].
   destruct (fs_find (st_fs st) (trj_name N)) as [[nm own k]|] eqn:Ef; [destruct k|]; cbn [snd ob_energy ob_name]; try discriminate.
@@ -769,7 +782,7 @@ Qed.
 Lemma opt_skip_means_trajectory st r : ob_invoked (snd (exec_opt st r)) = false ->
   fs_exists (st_fs st) (trj_name (snd (reg_step (st_reg st) r))) = true.
 Proof.
-  unfold exec_opt, fs_exists.
+  unfold exec_opt, exec_opt_late, fs_exists.
   destruct (fs_find (st_fs st) (trj_name (snd (reg_step (st_reg st) r)))) as [[nm own k]|]; [reflexivity|].
   cbn [snd ob_invoked]. discriminate.
 Qed.
@@ -811,7 +824,8 @@ Lemma parsed_same_identity st o r' : Inv st -> clean_op o ->
   ob_energy (snd (exec_op st o)) = Some r' ->
   idf r' (ex_N st o) = idf (o_req o) (ex_N st o).
 Proof.
-  intros I C. rewrite exec_op_unfold. simpl. unfold stage_result.
+  intros I C. rewrite exec_op_unfold. cbn [snd ob_energy]. unfold ex_res.
+  destruct (ex_inp_ok st o); [|discriminate]. unfold stage_result.
   destruct (fs_find (ex_fs2 st o) (ex_outF st o)) as [[nm own k]|] eqn:E; [|discriminate].
   destruct k as [|c| |c]; simpl; try discriminate. intros H. injection H as <-.
   apply fs_find_some in E. destruct E as [Hin Hnm]. simpl in Hnm.
@@ -823,24 +837,31 @@ Proof.
     apply app_eq_len in Hname; [symmetry; exact (proj1 Hname)|rewrite !out_ext_len; reflexivity]. }
   subst own. exact (WF_unique _ _ _ _ W1 Hbind B1).
 Qed.
-Lemma skip_means_normal st o : ob_invoked (snd (exec_op st o)) = false ->
+(* the declared input files exist (no NoInputError) and the program is not invoked: the output
+   existed and had terminated normally *)
+Lemma skip_means_normal st o : ex_inp_ok st o = true -> ob_invoked (snd (exec_op st o)) = false ->
   fs_exists (ex_fs1 st o) (ex_outF st o) = true /\ fs_normal (ex_fs1 st o) (ex_outF st o) = true /\
   ex_fs2 st o = ex_fs1 st o.
 Proof.
-  rewrite exec_op_unfold. simpl. intros H. apply negb_false_iff in H.
+  intros Hok. rewrite exec_op_unfold. cbn [snd ob_invoked]. rewrite Hok. cbn [andb]. intros H. apply negb_false_iff in H.
   pose proof H as H'. unfold ex_skip in H'. apply reuse_rule_sound in H'. destruct H' as [H1 H2].
-  split; [exact H1|]. split; [exact H2|]. unfold ex_fs2, stage_program. rewrite H. reflexivity.
+  split; [exact H1|]. split; [exact H2|]. unfold ex_fs2, stage_program. rewrite Hok, H. reflexivity.
 Qed.
-Lemma not_normal_means_invoked st o :
+Lemma not_normal_means_invoked st o : ex_inp_ok st o = true ->
   fs_exists (ex_fs1 st o) (ex_outF st o) && fs_normal (ex_fs1 st o) (ex_outF st o) = false ->
   ob_invoked (snd (exec_op st o)) = true.
 Proof.
-  intros H. rewrite exec_op_unfold. cbn [snd ob_invoked]. apply negb_true_iff. unfold ex_skip.
+  intros Hok H. rewrite exec_op_unfold. cbn [snd ob_invoked]. rewrite Hok. cbn [andb]. apply negb_true_iff. unfold ex_skip.
   destruct (fs_exists (ex_fs1 st o) (ex_outF st o)), (fs_normal (ex_fs1 st o) (ex_outF st o));
     simpl in H; try discriminate;
     (match goal with |- ?x = false => destruct x eqn:E end;
      [apply reuse_rule_sound in E; destruct E; discriminate|reflexivity]).
 Qed.
+(* a declared input file that does not exist: NoInputError, nothing is run, nothing is parsed *)
+Lemma missing_input_means_nothing st o : ex_inp_ok st o = false ->
+  ob_invoked (snd (exec_op st o)) = false /\ ob_energy (snd (exec_op st o)) = None /\
+  ob_raised (snd (exec_op st o)) = true.
+Proof. intros H. rewrite exec_op_unfold. cbn [snd ob_invoked ob_energy ob_raised]. unfold ex_res. rewrite H. repeat split. Qed.
 Lemma fs_find_fresh_output side out fs : f_name side <> f_name out ->
   fs_find (fs_write side (fs_write out fs)) (f_name out) = Some out.
 Proof.
@@ -857,8 +878,9 @@ Lemma invoked_result_is_fresh st o : ob_invoked (snd (exec_op st o)) = true -> o
   ob_energy (snd (exec_op st o)) = Some (o_req o) /\
   ob_raised (snd (exec_op st o)) = match o_out o with ONormal => false | _ => true end.
 Proof.
-  rewrite exec_op_unfold. simpl. intros H Ho. apply negb_true_iff in H.
-  unfold ex_fs2, stage_program, stage_result. rewrite H.
+  rewrite exec_op_unfold. cbn [snd ob_invoked ob_energy ob_raised]. intros H Ho.
+  apply andb_true_iff in H. destruct H as [Hok H]. apply negb_true_iff in H.
+  unfold ex_res, ex_fs2, stage_program, stage_result. rewrite Hok, H.
   destruct (o_out o); [| |congruence];
     rewrite fs_find_fresh_output' by (simpl; apply side_name_not_out); simpl; split; reflexivity.
 Qed.
@@ -884,7 +906,7 @@ Proof.
   assert (Q : forall f, In f (ex_fs1 st o) -> In (f_name f) (ex_inputs st o) -> f_owner f = ex_N st o).
   { intros g Hg Hn. apply (inputs_owned (ex_N st o) (ex_inputs st o) (st_fs st) []) with (f := g);
       [intros ? ? []|exact Hg|exact Hn]. }
-  unfold ex_fs2, stage_program. destruct (ex_skip st o); [exact Q|].
+  unfold ex_fs2, stage_program. destruct (ex_inp_ok st o); [|exact Q]. destruct (ex_skip st o); [exact Q|].
   destruct (o_out o); [| |exact Q];
     apply (owned_fs_write (fun nm => In nm (ex_inputs st o))); try reflexivity;
     apply (owned_fs_write (fun nm => In nm (ex_inputs st o))); try reflexivity; exact Q.
@@ -1103,22 +1125,22 @@ Proof.
 Qed.
 
 (* files of other calculations survive every clean-up mode except `everything` *)
-Lemma cleanup_keeps_foreign st o f : o_cm o <> CEverything ->
+Lemma cleanup_keeps_foreign st o f : o_stale o = [] -> o_cm o <> CEverything ->
   In f (ex_fs2 st o) -> f_owner f <> ex_N st o -> In f (st_fs (fst (exec_op st o))).
 Proof.
-  intros Hcm Hin Hown. rewrite exec_op_unfold. simpl.
-  assert (K : In f (fs_remove_all (cleanup_selection false (ex_N st o) (ex_inputs st o) (ex_outF st o) (map f_name (ex_fs2 st o))) (ex_fs2 st o))).
-  { apply fs_remove_all_keeps; [exact Hin|]. unfold cleanup_selection. rewrite app_nil_r.
+  intros Hst Hcm Hin Hown. rewrite exec_op_unfold. simpl.
+  assert (K : In f (fs_remove_all (cleanup_selection false (ex_N st o) (ex_declared st o) (ex_outF st o) (map f_name (ex_fs2 st o))) (ex_fs2 st o))).
+  { apply fs_remove_all_keeps; [exact Hin|]. unfold cleanup_selection, ex_declared. rewrite Hst, !app_nil_r.
     intros Hn. apply Hown. exact (ex_fs2_inputs_owned st o f Hin Hn). }
   unfold stage_cleanup. destruct (o_cm o); [exact Hin| |exact K|congruence].
-  destruct (snd (stage_result (ex_fs2 st o) (ex_outF st o))); [exact K|exact Hin].
+  destruct (snd (ex_res st o)); [exact K|exact Hin].
 Qed.
-Lemma cleanup_everything_keeps_unmatched st o f : o_cm o = CEverything ->
+Lemma cleanup_everything_keeps_unmatched st o f : o_stale o = [] -> o_cm o = CEverything ->
   In f (ex_fs2 st o) -> f_owner f <> ex_N st o -> f_name f <> ex_outF st o ->
   matches match_rule (ex_N st o) (f_name f) = false -> In f (st_fs (fst (exec_op st o))).
 Proof.
-  intros Hcm Hin Hown Hout Hm. rewrite exec_op_unfold. simpl. unfold stage_cleanup. rewrite Hcm.
-  apply fs_remove_all_keeps; [exact Hin|]. unfold cleanup_selection. rewrite in_app_iff.
+  intros Hst Hcm Hin Hown Hout Hm. rewrite exec_op_unfold. simpl. unfold stage_cleanup. rewrite Hcm.
+  apply fs_remove_all_keeps; [exact Hin|]. unfold cleanup_selection, ex_declared. rewrite Hst, app_nil_r, in_app_iff.
   intros [Hn|[Hn|Hn]].
   - apply Hown. exact (ex_fs2_inputs_owned st o f Hin Hn).
   - congruence.
@@ -1157,7 +1179,7 @@ Definition w_req (nm kw : string) (sp : species) (pcs : option (list pcharge)) :
    normally: they SHARE a name, the second one is not executed and takes over the first one's
    result *)
 Definition shares (ra rb : request) : Prop :=
-  let res := snd (run_ops init_state [mkOp ra ONormal CNone [] None; mkOp rb ONormal CNone [] None]) in
+  let res := snd (run_ops init_state [mkOp ra ONormal CNone [] None []; mkOp rb ONormal CNone [] None []]) in
   map ob_name res = [snd (reg_step [] ra); snd (reg_step [] ra)] /\
   map ob_invoked res = [true; false] /\
   map ob_energy res = [Some ra; Some ra].
@@ -1199,6 +1221,6 @@ Definition hashed_decimals : nat :=
 Definition w_dist (q : rat) : species := mkSpecies (s2l "m") 0 1 [s2l "O"; s2l "H"; s2l "H"] None [] [(0, 1, q)].
 Definition w_eps : rat := ((4 * 10 ^ Z.of_nat hashed_decimals + 1)%Z, Z.to_pos (4 * 10 ^ Z.of_nat hashed_decimals)).
 Definition w_ops : list op :=
-  [mkOp (w_req "a" "SPKeywords('k1')" w_sp None) ONormal CNone [] None;
-   mkOp (w_req "a" "SPKeywords('k2')" w_sp None) ONormal CNone [] None].
-Definition w_clean : op := mkOp (w_req "a" "SPKeywords('k1')" w_sp None) ONormal CEverything [] None.
+  [mkOp (w_req "a" "SPKeywords('k1')" w_sp None) ONormal CNone [] None [];
+   mkOp (w_req "a" "SPKeywords('k2')" w_sp None) ONormal CNone [] None []].
+Definition w_clean : op := mkOp (w_req "a" "SPKeywords('k1')" w_sp None) ONormal CEverything [] None [].
